@@ -40,7 +40,7 @@ func analyzeC04(tr *muxTrace) string {
 			return fmt.Sprintf("step %d %s: %v", s.idx, s.desc, err)
 		}
 		switch s.kind {
-		case opAdd, opRemove, opSetPCR:
+		case opAdd, opRemove, opSetPCR, opChurn:
 			if len(s.out) != 0 {
 				return fmt.Sprintf("step %d %s wrote %d bytes", s.idx, s.desc, len(s.out))
 			}
